@@ -1,6 +1,7 @@
 (* C01 - unmarshalled code objects equal what the producing CPython itself loads. *)
 From Xdis Require Import Base.Prelude Base.Result Model.Unmarshal Model.UnmarshalObs Gen.Magics Gen.Dispatch
-  Proofs.UnmarshalProofs Proofs.C10Tables.
+  Proofs.UnmarshalProofs Proofs.C10Tables
+  Base.LE Model.Magic Model.Load Gen.RefMagics Spec.Registry Spec.Header Proofs.HeaderDefs Proofs.HeaderProofs Model.Marsh.
 
 (* A code object is a value of the same reader: whenever CPython's marshal of the bytecode's
    version loads a payload to a code-object tree, xdis's reader returns the same tree - every
@@ -28,3 +29,41 @@ Example C01_localsplus_nonvacuous :
   split_localsplus [PText [97]; PText [98]; PText [99]; PText [100]] [96; 32; 64; 128]
   = ([PText [97]; PText [98]], [PText [97]; PText [99]], [PText [100]]).
 Proof. split; reflexivity. Qed.
+
+(* load_module as a whole: header parser, then the unmarshaller on the bytes after the header.  For the file of EVERY released magic
+   (CPython's registry and the PyPy files of the corpus) and EVERY byte string after the magic: when the producing version's file format
+   yields header fields f (C06's spec) and CPython's own marshal of that version loads the bytes after them to a code-object tree,
+   load_module's model returns that version, those header fields, and the same tree, having consumed exactly the same bytes. *)
+Lemma released_magics_known : forallb (fun '(m, _, _) => zmem (norm_magic m) all_magics) released_all = true.
+Proof. vm_compute. reflexivity. Qed.
+
+Theorem C01_load_module : forall name_pypy38 m v mb r ts size sip rest ints objs st,
+  In (m, v, mb) released_all -> bytes_ok r = true ->
+  spec_fields (spec_kind v) r = Some (ts, size, sip, rest) ->
+  load (cpy_cfg (norm_magic m)) rest = Ok (PCode ints objs, st) ->
+  exists h st', parse_header name_pypy38 (mb ++ r) = Ok h /\ firstn 2 (h_version h) = v /\ h_magic_int h = norm_magic m
+    /\ h_timestamp h = ts /\ h_size h = size /\ h_sip h = sip
+    /\ load (xdis_cfg (h_magic_int h)) (h_rest h) = Ok (PCode ints objs, st') /\ inp st' = inp st.
+Proof.
+  intros p m v mb r ts size sip rest ints objs st Hin Hb Hf Hl.
+  destruct (header_agree_all p m v mb r (ts, size, sip, rest) Hin Hb Hf) as (h & Hp & Hv & Hm & Hfields).
+  inversion Hfields as [[H1 H2 H3 H4]].
+  assert (Hk : In (norm_magic m) all_magics).
+  { pose proof (proj1 (forallb_forall _ _) released_magics_known (m, v, mb) Hin) as Hz. cbv beta iota in Hz.
+    unfold zmem in Hz. apply existsb_exists in Hz. destruct Hz as (x & Hx & E). apply Z.eqb_eq in E. subst x. exact Hx. }
+  destruct (C01_load (norm_magic m) rest ints objs st Hk Hl) as (st' & E & Ei).
+  exists h, st'. rewrite Hm, H4. repeat split; try reflexivity; try assumption.
+Qed.
+
+(* the premises are met by a real file shape: a 3.8 timestamp pyc (flags 0, mtime 7, size 9) holding a one-function module *)
+Definition ex_mod38 : pv :=
+  PCode [0; 0; 0; 0; 1; 64; 1]
+        [PBin [100; 0; 83; 0]; PTuple [PNone; PInt 7; PFloat 4609434218613702656; PFrozenSet [PText [97]]]; PTuple [PText [120]]; PTuple []; PTuple []; PTuple [];
+         PText [102; 46; 112; 121]; PText [60; 109; 62]; PNone; PBin [0; 1]; PNone].
+Example C01_load_module_nonvacuous :
+  let payload := dumps (fun _ => [49; 46; 53]) true false ex_mod38 in
+  existsb (fun '(m, v, mb) => (m =? 3413) && zlist_eqb v [3; 8] && zlist_eqb mb [85; 13; 13; 10]) released_all = true
+  /\ bytes_ok ([0; 0; 0; 0; 7; 0; 0; 0; 9; 0; 0; 0] ++ payload) = true
+  /\ spec_fields (spec_kind [3; 8]) ([0; 0; 0; 0; 7; 0; 0; 0; 9; 0; 0; 0] ++ payload) = Some (Some 7, Some 9, None, payload)
+  /\ match load (cpy_cfg (norm_magic 3413)) payload with Ok (PCode _ (_ :: PTuple [PNone; PInt 7; PFloatText [49; 46; 53]; PFrozenSet [PText [97]]] :: _), st) => inp st = [] | _ => False end.
+Proof. repeat split; vm_compute; reflexivity. Qed.
